@@ -611,6 +611,55 @@ func runC06(c *h.Ctx) {
 		cs.Distinct(fmt.Sprintf("th-%d-%s", len(b)/8, shapeKey(v)[:min(len(shapeKey(v)), 12)]))
 	})
 
+	// ---- element types narrower than declared: the header of a list<double> / map<_,i64> ... says BYTE, I16, I32 or
+	// BOOL with the count unchanged; every descriptor-driven reader must notice instead of reading 8 bytes of a 1-byte element
+	c.Run("thrift-elem-narrow", c.N(120, 2400), func(cs *h.Case) {
+		wide := []*gen.Type{{T: tref.DOUBLE}, {T: tref.I64}, {T: tref.I32}, {T: tref.I16}}[cs.R.Intn(4)]
+		st := &gen.StructT{Name: "EN", Fields: []*gen.FieldT{
+			{ID: 1, Name: "l", T: &gen.Type{T: tref.LIST, Elem: wide}}, {ID: 2, Name: "m", T: &gen.Type{T: tref.MAP, Key: &gen.Type{T: tref.STRING}, Elem: wide}},
+			{ID: 3, Name: "s", T: &gen.Type{T: tref.SET, Elem: wide}}, {ID: 4, Name: "im", T: &gen.Type{T: tref.MAP, Key: &gen.Type{T: tref.I32}, Elem: wide}},
+			{ID: 5, Name: "tail", T: &gen.Type{T: tref.STRING}}}}
+		sc := &gen.Schema{Structs: []*gen.StructT{st}, Root: st}
+		root := structType(st)
+		desc, _, err := ParseRoot(sc, thrift.NewDefaultOptions())
+		if err != nil {
+			cs.Viol("robust:parse-idl", "err", err)
+			return
+		}
+		v := gen.GenVal(cs.R, root, gen.ValCfg{MaxElems: 4, MaxStr: 8, AllFields: true}, 0)
+		b := tref.Encode(v)
+		var offs []int
+		tref.Walk(v, func(x *tref.Val, d int) {
+			switch x.T {
+			case tref.LIST, tref.SET:
+				offs = append(offs, x.Start)
+			case tref.MAP:
+				offs = append(offs, x.Start+1)
+			}
+		})
+		if len(offs) == 0 {
+			return
+		}
+		ts := thriftTargets(cs.R, desc, v, root)
+		for _, off := range offs {
+			for _, nt := range []byte{tref.BOOL, tref.BYTE, tref.I16, tref.I32, tref.STRUCT} {
+				if off >= len(b) || nt == b[off] {
+					continue
+				}
+				o := append([]byte{}, b...)
+				o[off] = nt
+				cs.Info("mutation", fmt.Sprintf("elem type %d at %d", nt, off))
+				for _, t := range ts {
+					switch t.name {
+					case "thrift.generic.Value.Interface", "thrift.generic.Value.Field+descend", "thrift.generic.Value.GetByPath", "thrift.generic.Value.GetByPath(name)", "t2j.Do", "thrift.generic.Value.MarshalTo", "thrift.BinaryProtocol.ReadAnyWithDesc":
+						c06Call(cs, t, o)
+					}
+				}
+				cs.Cover("elem_narrow_mutations")
+			}
+		}
+	})
+
 	// ---- Thrift containers as root nodes: single-step accessors (Index / GetByStr / GetByInt / bulk) on
 	// truncated and count-substituted lists, sets and maps; every node handed back must lie inside the input
 	c.Run("thrift-containers", c.N(1500, 60000), func(cs *h.Case) {
